@@ -742,7 +742,8 @@ def flurry_projection(trace, job, consts):
                 if isinstance(x, int) and not isinstance(x, bool) and abs(x) >= (1 << 31):
                     o[f] = -777777
     return {"id": trace["id"], "nthreads": nth + 1, "prog": [prog[t] for t in range(nth + 1)], "hashof": hashof, "initkeys": [],
-            "set": 1 if is_set else 0, "n0": lay["n0"], "nslots": max(len(slot_ids), 1), "ntnts": max(len(tnt_ids), 1), "ev": out}
+            "set": 1 if is_set else 0, "n0": lay["n0"], "nslots": max(len(slot_ids), 1), "ntnts": max(len(tnt_ids), 1), "ev": out,
+            "maxnodes": max(80, 3 * sum(1 for t in prog for o in prog[t] if o.get("op") in ("insert", "try_insert")) + 20)}
 
 
 def treelock_projection(trace, job):
